@@ -17,6 +17,15 @@ CHECKS = {
          "flips at least one enumerated point.",
          "Integer/None field values only; reference predicate transcribed from the property statement; fake UDP socket.",
          "DESIGN.md 2/C13", "enum+world"),
+ "C12": ("model_checking",
+         "explicit-state BFS over TRXC command histories on the real Application, reference-model oracle, probe script in every state",
+         "Every state of the power/tuning/hopping/clock-link machine reachable by POWERON/POWEROFF/RXTUNE/TXTUNE/SETFH "
+         "addressed to any transceiver is visited for several application configurations (children of BTS and MS, extra "
+         "transceivers, other base ports); each transition's reply and each state's clock indications, burst acceptance, "
+         "routing and queue-forgetting POWEROFF cycle are compared with a reference model; the frontier is exhausted.",
+         "Clock thread replaced by direct send_clck_ind() calls (liveness observed on the fake Thread object); one shared "
+         "carrier; untuned-but-running children not judged for routing.",
+         "DESIGN.md 2/C12", "world+explore"),
 }
 
 PENDING = {}
